@@ -170,7 +170,7 @@ def run(tier):
                 jobs.append((cli, ("exh", n, tuple(edges), c), n, edges, [c] * len(edges), n >= 3, min(n, 2 + c % 2), seeds_fixed))
     exhaustive_jobs = len(jobs)
     # sampled larger DAGs with mixed contexts
-    nsamp = 100 if tier == "quick" else 1000
+    nsamp = 100 if tier == "quick" else 3000
     four = all_dags(4) if tier == "quick" else None
     for s in range(nsamp):
         if four is not None and s < 60:
